@@ -147,6 +147,20 @@ pub fn run(out: &str, frames: &[Vec<u8>]) -> usize {
                     av1::obu_type::FRAME, av1::obu_type::REDUNDANT_FRAME_HEADER, av1::obu_type::TILE_LIST, av1::obu_type::PADDING],
             "default_sps": bytes_json(h264::DEFAULT_SPS), "default_pps": bytes_json(h264::DEFAULT_PPS)}));
     }
+    // OpusConfig helper: defaults and the mapping family chosen by with_channels (RFC 7845 5.1.1: family 0 is mono / stereo only)
+    {
+        use muxide::codec::opus::OpusConfig;
+        let d = OpusConfig::default();
+        let fam: Vec<Value> = (0u8..=9).chain([255u8]).map(|c| {
+            let x = OpusConfig::default().with_channels(c);
+            json!([c, x.output_channel_count, x.channel_mapping_family])
+        }).collect();
+        k += 1;
+        w.write(&json!({"ev": "val", "k": k, "f": "opusconfig", "version": d.version, "channels": d.output_channel_count, "pre_skip": d.pre_skip,
+            "rate": d.input_sample_rate, "gain": d.output_gain, "family": d.channel_mapping_family,
+            "mono": OpusConfig::mono().output_channel_count, "stereo": OpusConfig::stereo().output_channel_count,
+            "preskip_set": OpusConfig::default().with_pre_skip(1000).pre_skip, "with_channels": fam}));
+    }
     let _ = Value::Null;
     w.finish()
 }
